@@ -164,12 +164,15 @@ def t_structure(eng):
                not any(isinstance(j, ast.Return) for j in jumps))
     resets = [ast.unparse(s).replace(' ', '') for s in f.body if isinstance(s, ast.Assign)]
     eng.oblige(n + 'field-lists-start-empty', 'self.e_field=[]' in resets and 'self.h_field=[]' in resets)
-    # near_field_iter yields the columns of near_field_coord, in order
-    g = eng.get_fnode('Mininec.near_field_iter')
-    txt = ast.unparse(g).replace(' ', '').replace('\n', '')
+    # near_field_iter yields the columns of near_field_coord, in order (executed, not read: 3 x 2 symbolic coordinates)
+    mi = SObj('Mininec', label='m-iter')
+    cols = [[fresh_real('c%d%d' % (r_, c_)) for c_ in range(2)] for r_ in range(3)]
+    mi.fields['near_field_coord'] = NDArr(cols)
+    eng.inline.add('Mininec.near_field_iter')
+    got = eng.concrete_items(eng.call_qual('Mininec.near_field_iter', [mi]))
+    okc = got is not None and len(got) == 2 and all(isinstance(v, NDArr) and v.shape == (3,) for v in got)
     eng.oblige(P + '/Mininec.near_field_iter/yields-the-columns-of-near_field_coord-in-order',
-               'forainself.near_field_coord.T:yielda' in txt.replace('"', '').split('"""')[-1]
-               or txt.endswith('forainself.near_field_coord.T:yielda'))
+               okc and bterm(b_and(*[num_eq(got[c_].data[r_], cols[r_][c_]) for c_ in range(2) for r_ in range(3)])))
     # far field: the angle arrays and direction vectors are computed from the arguments of THIS call, unconditionally
     g = eng.get_fnode('Mininec.compute_far_field')
     top = {}
@@ -367,11 +370,18 @@ def t_farfield_grid_to_rows(eng):
     rat = fresh_real('rat')
     eng.assume(r_cmp('>', rat, 0))
     m = SObj('Mininec', label='m')
-    env = {'self': m, 'azimuth_angle': azi, 'zenith_angle': zen, 'p123': NDArr(p123), 'h12': NDArr(h12), 'x34': NDArr(x34), 'rat': rat}
+    env = {'self': m, 'azimuth_angle': azi, 'zenith_angle': zen, 'p123': NDArr(p123), 'h12': NDArr(h12), 'x34': NDArr(x34)}
     eng.inline.add('Far_Field_Pattern.__init__')
     eng.frames.append({'fref': eng.fref('Mininec.compute_far_field'), 'env': env, 'qual': 'Mininec.compute_far_field', 'node': g})
     try:
         eng.exec_stmt(st_grid[0], env)
+        # the one remaining free name of the pattern statement is the power ratio (whatever the local is called)
+        free = sorted(set(t.id for t in ast.walk(st_pat[0].value) if isinstance(t, ast.Name) and t.id not in env
+                          and t.id not in ('Far_Field_Pattern', 'np')))
+        if len(free) != 1:
+            from pyvc.source import Unresolved
+            raise Unresolved('arguments of the Far_Field_Pattern call: %s' % free)
+        env[free[0]] = rat
         eng.exec_stmt(st_pat[0], env)
     finally:
         eng.frames.pop()
